@@ -231,4 +231,53 @@ def c17Holds (src ds de : List Char) (cfg : Cfg) (items : List (Nat × Nat × Bo
   ((items.filter (fun x => !x.2.2)).map (fun x => (x.1, x.2.1)) == P.filter (fun p => !swallowedBy R p)) &&
   startsSortedB items 0
 
+/-! ### C13: lines -/
+
+/-- `split_inclusive('\n')` on bytes -/
+def linesT : Bytes → Bytes → List Bytes
+  | [], [] => []
+  | [], cur => [cur]
+  | x :: xs, cur => if x = NL then (cur ++ [x]) :: linesT xs [] else linesT xs (cur ++ [x])
+
+def isBlankLine (l : Bytes) : Bool := l.all isWs
+
+def nbl (l : Bytes) : Bool := !isBlankLine l
+
+/-- the non-blank lines of a text, line breaks included -/
+def nonBlankLines (K : Bytes) : List Bytes := (linesT K []).filter nbl
+
+def isBlankB (x : ABy) : Bool := x == .lead ' ' || x == .lead '\t'
+
+/-- the line start in front of `p` when only blanks stand between -/
+def lineStartBlank (K : Bytes) : Nat → Nat → Option Nat
+  | 0, p => if p = 0 then some 0 else none
+  | fuel + 1, p =>
+    if p = 0 then some 0
+    else match K[p - 1]? with
+      | some x => if x == NL then some p else if isBlankB x then lineStartBlank K fuel (p - 1) else none
+      | none => none
+
+def blockStyleB (K : Bytes) (pos : List Nat) : Bool :=
+  pos.all fun p =>
+    (K[p]? == some NL || p == K.length) && decide (p ≤ K.length) &&
+    match lineStartBlank K (p + 1) p with
+    | some ls => !(ls == 0) || p == 0
+    | none => false
+
+
+def noReadyUnwrapB (cfg : Cfg) (parts : List Part) : Bool :=
+  (elementsOf parts).all fun e => !conditionHolds cfg e.1 || !hasAttr e.1 "unwrap-block"
+
+/-- C13 (a) on an observed output: `none` when the source is outside the hypothesis (an unwrapped block, or a removal
+    that is not block-style) -/
+def c13Holds (src ds de : List Char) (cfg : Cfg) (out : List Char) : Option Bool :=
+  let b := bytesOf src
+  let parts := parseSource src ds de
+  let K := minusRanges b (readyExtents cfg b parts)
+  let pos := match getRemovedPos (buildRemoveMarker cfg b parts) with
+    | .ok p => p.map (·.1)
+    | .error _ => []
+  if noReadyUnwrapB cfg parts && blockStyleB K pos then some (nonBlankLines (bytesOf out) == nonBlankLines K)
+  else none
+
 end Chiritori.Spec
